@@ -30,6 +30,7 @@ def run(ctx):
     E.rule_header_fully_stamped(res, "C07-R4", m, only=("payload length",))  # the declared length is stamped on every path of the header writer, whatever the flag
     E.rule_segment_source_advances(res, "C07-R5", m)
     E.rule_puts_are_flushed(res, "C07-R5", m)  # every payload byte appears: what was put is handed out
+    E.rule_batch_order(res, "C07-R5", m)  # ... in batch order: every encode overload walks [begin, end) once, forwards (shared with C08-R5)
     E.rule_writes_inside_frame(res, "C07-R6", m)
     E.rule_state_reset(res, "C07-R7", "C07-R7", m)
     E.rule_free_count_writers(res, "C07-R1", m)
